@@ -10,7 +10,7 @@ use crate::{
     },
     re_compiler::ReCompiler,
     re_flags::ReFlags,
-    re_matcher::{CaptureState, ReMatcher},
+    re_matcher::{ReMatcher, Snapshot},
 };
 
 // A sequence of multiple pieces in a regular expression.
@@ -190,7 +190,7 @@ struct SequenceIterator<'a> {
     operations: &'a [Operation],
     backtracking_limit: Option<usize>,
     matcher: &'a ReMatcher<'a>,
-    saved_state: Option<CaptureState>,
+    saved_state: Option<Snapshot>,
 }
 
 impl<'a> SequenceIterator<'a> {
@@ -201,7 +201,7 @@ impl<'a> SequenceIterator<'a> {
         contains_capturing_expressions: bool,
     ) -> Self {
         let saved_state = if contains_capturing_expressions {
-            Some(matcher.capture_state())
+            Some(matcher.snapshot())
         } else {
             None
         };
@@ -233,7 +233,6 @@ impl Iterator for SequenceIterator<'_> {
                 let top = self.iterators.last_mut().unwrap();
                 // take the next item from the top iterator
                 if let Some(next) = top.next() {
-                    self.matcher.clear_captured_groups_beyond(next);
                     // if the amount of iterators to process is equal or
                     // greater than the amount of operations in this sequence,
                     // then we return next
@@ -262,7 +261,7 @@ impl Iterator for SequenceIterator<'_> {
         }
         // restore saved state
         if let Some(saved_state) = &self.saved_state {
-            self.matcher.reset_state(saved_state.clone());
+            self.matcher.restore(saved_state);
         }
         None
     }
